@@ -28,7 +28,9 @@ pub fn factors(loc: &str) -> Factors {
 pub fn run(c: &Case) -> Result<EnergyPerformance, String> {
     let comps: Components = c.text.parse().map_err(|e| format!("{}", e))?;
     let w = factors(c.loc);
-    energy_performance(&comps, &w, c.k_exp, c.area, c.lm).map_err(|e| format!("{}", e))
+    let r = energy_performance(&comps, &w, c.k_exp, c.area, c.lm).map_err(|e| format!("{}", e));
+    if let Ok(ep) = &r { leaf::note_magnitude(ep); }
+    r
 }
 
 fn eval(comps: &str, loc: &str, k_exp: f32, area: f32, lm: bool) -> Result<Value, String> {
